@@ -26,6 +26,7 @@ EXPLANATION = (
     "carbon labels) and the hard-coded row keys agree.  The truth of RDKit's counts, additivity over mixtures and the comparator "
     "over all composition pairs are NOT decided (they quantify over runtime values)."
     ' (E5) signed composition vectors never pass through Counter arithmetic; (E6) carbon totals are sums over every component; (E7) the count memo cannot outlive the object that fixes its other inputs; (E8) if a function of the decompose chain is memoised, no receiver anywhere in the package mutates the dictionary it gets; E1 also requires a directly indexed table to cover Z=1..118 and accepts constant keys under `atomic number == n`; E3 accepts a per-atom charge sum only when it runs for every atom of the loop.'
+    ' (E11) the validator decomposes, compares and counts carbon on the rows it labels (shared with C01-R2); (E12) a side is parsed as a whole before its fragments are counted one by one.'
 )
 ASSUMPTIONS = [
     "RDKit's AddHs/GetAtoms/GetFormalCharge/GetSymbol compute what their names say",
